@@ -553,7 +553,7 @@ class _DirEntry:
         return self.path
 
     def __repr__(self):
-        return '<SimDirEntry %r>' % self.name
+        return '<DirEntry %r>' % self.name          # like os.DirEntry: str() does not give the path
 
 
 class SimRaw(io.RawIOBase):
